@@ -719,7 +719,7 @@ def engine_crosscheck(c, facts, b, g):
             "E1 %s vs E2 %s%s" % (dict(e1), dict(e2), ("; unmodelled nodes in the IR: %s" % [o.get("src", "")[:40] for o in opq]) if opq else ""),
             nontrivial=False,
         )
-    c.floor("functions cross-checked between the two extractors", n, 20)
+    c.floor("functions cross-checked between the two extractors", n, 10)
 
 
 def psrc_arm(arm):
